@@ -333,3 +333,132 @@ pub fn run_vtype(case: &VCase) -> CaseReport {
     }
     rep
 }
+
+// ------------------------------------------------------------------ C04: asymmetric drop glue
+//
+// Ownership conservation with key / value types of which only ONE has a destructor
+// (`K = TKey, V = u32` and `K = u16, V = TVal`): the library may consult `needs_drop`, and the
+// E1 ledger only ever sees the pair (TKey, TVal). Oracle: after every step the number of live
+// tracked objects equals the number of retained entries (resident + ghosts); none is live
+// after the drop; no dead object is touched.
+
+use crate::inst::{live_ids, take_bad, TKey, TVal};
+use caches::WTinyLFUCache;
+
+fn ledger_ops<K, V, C: Cache<K, V>>(c: &mut C, ops: &[VOp], mk_k: &dyn Fn(u16) -> K, mk_v: &dyn Fn(u32) -> V, retained: &dyn Fn(&C) -> usize, what: &str) -> Result<(), String>
+where
+    K: core::hash::Hash + Eq,
+{
+    for (i, op) in ops.iter().enumerate() {
+        let t = crate::ops::token(i, 0);
+        match op {
+            VOp::Put(k) | VOp::PeekOrPut(k) | VOp::ContainsOrPut(k) | VOp::PutProtected(k) => drop(c.put(mk_k(*k), mk_v(t))),
+            VOp::Get(k) => {
+                let _ = c.get(&mk_k(*k)).is_some();
+            }
+            VOp::GetMut(k) => {
+                if let Some(v) = c.get_mut(&mk_k(*k)) {
+                    *v = mk_v(t);
+                }
+            }
+            VOp::Peek(k) => {
+                let _ = c.peek(&mk_k(*k)).is_some();
+            }
+            VOp::PeekMut(k) => {
+                if let Some(v) = c.peek_mut(&mk_k(*k)) {
+                    *v = mk_v(t);
+                }
+            }
+            VOp::Contains(k) => {
+                let _ = c.contains(&mk_k(*k));
+            }
+            VOp::Remove(k) => drop(c.remove(&mk_k(*k))),
+            VOp::Purge => c.purge(),
+            _ => {}
+        }
+        let b = take_bad();
+        if !b.is_empty() {
+            return Err(format!("step {i} {op:?} on {what}: {}", b.join("; ")));
+        }
+        let (live, want) = (live_ids().len(), retained(c));
+        if live != want {
+            return Err(format!("step {i} {op:?} on {what}: {live} tracked object(s) are live, the cache retains {want} entr(y/ies) (each owns exactly one tracked object)"));
+        }
+    }
+    Ok(())
+}
+
+macro_rules! ledger_kind {
+    ($case:expr, $K:ty, $V:ty, $mk_k:expr, $mk_v:expr, $tag:expr) => {{
+        let case: &VCase = $case;
+        let what = format!("{} with {}", case.kind.short(), $tag);
+        let r: Result<(), String> = (|| match case.kind {
+            Kind::Lru => {
+                let mut c: RawLRU<$K, $V> = RawLRU::new(case.a).map_err(|e| e.to_string())?;
+                ledger_ops(&mut c, &case.ops, &$mk_k, &$mk_v, &|c| c.len(), &what)
+            }
+            Kind::Seg => {
+                let mut c: SegmentedCache<$K, $V> = SegmentedCache::new(case.a, case.b).map_err(|e| e.to_string())?;
+                ledger_ops(&mut c, &case.ops, &$mk_k, &$mk_v, &|c| c.len(), &what)
+            }
+            Kind::TwoQ => {
+                let mut c: TwoQueueCache<$K, $V> = TwoQueueCache::new(case.a.max(2)).map_err(|e| e.to_string())?;
+                ledger_ops(&mut c, &case.ops, &$mk_k, &$mk_v, &|c| c.len() + c.ghost_len(), &what)
+            }
+            Kind::Arc => {
+                let mut c: AdaptiveCache<$K, $V> = AdaptiveCache::new(case.a).map_err(|e| e.to_string())?;
+                ledger_ops(&mut c, &case.ops, &$mk_k, &$mk_v, &|c| c.len() + c.recent_evict_len() + c.frequent_evict_len(), &what)
+            }
+            _ => {
+                let mut c: WTinyLFUCache<$K, $V> = WTinyLFUCache::with_sizes(case.a, case.b, case.b, 16).map_err(|e| e.to_string())?;
+                ledger_ops(&mut c, &case.ops, &$mk_k, &$mk_v, &|c| c.len(), &what)
+            }
+        })();
+        match r {
+            Err(e) => Err(e),
+            Ok(()) => {
+                let live = live_ids();
+                if live.is_empty() {
+                    Ok(())
+                } else {
+                    Err(format!("{what}: after the drop of the cache {} tracked object(s) are still live (ids {:?}): leaked", live.len(), live))
+                }
+            }
+        }
+    }};
+}
+
+pub fn run_dropglue(case: &VCase) -> CaseReport {
+    let mut rep = CaseReport::default();
+    rep.steps = case.ops.len();
+    for variant in 0..2 {
+        reset_case();
+        let _ = take_last_panic();
+        let blocks0 = crate::alloc::live_blocks();
+        let r = catch_unwind(AssertUnwindSafe(|| -> Result<(), String> {
+            if variant == 0 {
+                ledger_kind!(case, TKey, u32, |k: u16| TKey::new(k), |t: u32| t, "K = tracked key (destructor), V = u32 (no drop glue)")
+            } else {
+                ledger_kind!(case, u16, TVal, |k: u16| k, |t: u32| TVal::new(t), "K = u16 (no drop glue), V = tracked value (destructor)")
+            }
+        }));
+        match r {
+            Ok(Ok(())) => {
+                if crate::alloc::TRACKING && crate::alloc::live_blocks() != blocks0 {
+                    rep.violation = Some(Violation { prop: "C04", step: 0, msg: format!("{} heap block(s) still live after the drop of a {} cache whose {} has no drop glue", crate::alloc::live_blocks() - blocks0, case.kind.short(), if variant == 0 { "value type" } else { "key type" }), sig: format!("dropglue/{}/leak-blocks", case.kind.short()) });
+                    return rep;
+                }
+            }
+            Ok(Err(msg)) => {
+                rep.violation = Some(Violation { prop: "C04", step: 0, msg, sig: format!("dropglue/{}/ledger", case.kind.short()) });
+                return rep;
+            }
+            Err(_) => {
+                rep.aborted_by_panic = Some(take_last_panic().unwrap_or_default());
+                return rep;
+            }
+        }
+    }
+    rep.nontrivial = case.ops.iter().filter(|o| matches!(o, VOp::Put(_))).count() > case.a + case.b && case.ops.iter().any(|o| matches!(o, VOp::Remove(_)));
+    rep
+}
